@@ -237,6 +237,24 @@ def reinsertion(r, F):
               "a re-insertion of a key that was deleted / superseded meanwhile is written back (resurrecting it)", ln=p.term.ln)
 
 
+def size_limit_siblings(r, F):
+    """a re-inserted entry was accepted by Buffer::push once; Buffer::push_slice must accept the same sizes: the two comparisons with
+    max_entry_size yield the same (aligned<max, =, >) -> reject table"""
+    BUF = "foyer_storage::engine::block::buffer::Buffer"
+    tabs = {}
+    for name in ("push", "push_slice"):
+        fn = F.method(BUF, name)
+        rejects = [b.idx for b in fn.blocks if not b.cleanup for s in b.stmts if s.k == "assign" and s.place.local == 0 and s.rv.k == "use" and s.rv.ops[0].is_const() and s.rv.ops[0].const_val() == 0]
+        accepts = [b.idx for b in fn.calls_to(r"Vec::<T, A>::push$")]
+        found = tables.find_cmp(fn, lambda f, op: op.place is not None and backslice(f, op, "prov").has_call(r"bits::align_up$"), tables.role_field("max_entry_size"), "comparison of the aligned length with max_entry_size")
+        c, fl = found[0]
+        tabs[name] = tables.table(fn, c, fl, accepts)
+    r.require(tabs["push"] == tabs["push_slice"] and tabs["push"][2] == "no" and tabs["push"][1] != "no", F.method(BUF, "push_slice"), "push_slice accepts exactly what push accepts",
+              "(aligned<max, =, >) -> accepted: push %s, push_slice %s" % (tabs["push"], tabs["push_slice"]),
+              "Buffer::push and Buffer::push_slice disagree on the size limit: push %s vs push_slice %s — an entry of exactly the maximum size is written by an insert but silently dropped "
+              "when its block is reclaimed and it is re-inserted (its index entry then points into a rewritten block)" % (tabs["push"], tabs["push_slice"]), ln=None)
+
+
 def only_full(r, F):
     sub = F.method("foyer_storage::engine::block::flusher::Runner", "submit_io_task")
     w = [f for f in F.descendants(sub) if f.calls_to(r"BlockManager::on_writing_finish$")]
@@ -275,4 +293,5 @@ def run(chk, F):
     chk.run_rule("C09.release-raii", "ReclaimingBlock::drop returns the block; reclaim removes index entries, then cleans, then releases", 4, release_raii, F)
     chk.run_rule("C09.fifo", "clean queue pop_front/push_back; FifoPicker queues at the back and picks the front", 2, fifo, F)
     chk.run_rule("C09.reinsertion", "a re-inserted entry keeps hash, length and sequence and is skipped when the key left the index", 4, reinsertion, F)
+    chk.run_rule("C09.reinsertion-size-limit", "push_slice (re-insertion) accepts exactly the entry sizes push (insertion) accepts", 1, size_limit_siblings, F)
     chk.run_rule("C09.only-full", "only completely written blocks are handed to on_writing_finish", 1, only_full, F)
